@@ -91,7 +91,7 @@ def run(tier, seed, replay):
                     os.remove(f)
     # ---------- format
     fmts = []
-    for cb in ([9, 12, 16] if tier == 'quick' else range(9, 22)):
+    for cb in ([9, 12, 14, 16] if tier == 'quick' else range(9, 22)):
         for ro in ([0, 4, 6] if tier == 'quick' else range(7)):
             for mb in ([1, 64] if tier == 'quick' else [1, 7, 64, 1024, 65536]):
                 fmts.append((mb, cb, ro))
@@ -115,7 +115,10 @@ def run(tier, seed, replay):
         if v.get('valid') != '1':
             finds.append(('format-valid', os.path.basename(p), 'formatted image %s is not valid under the specification checker: %s' % (os.path.basename(p), {k: v.get(k) for k in ('supported', 'valid', 'tables', 'leaked', 'under', 'over', 'error')})))
     # ---------- check verdict: consistent images are accepted, leaks are reported
-    goods = [p for p in paths if ver.get(p, {}).get('valid') == '1' and int(ver[p].get('cb', '99')) <= 12][:12]
+    goods_all = [p for p in paths if ver.get(p, {}).get('valid') == '1' and int(ver[p].get('cb', '99')) <= 14]
+    # clusters larger than a refcount-block slice (4 KiB by default) first: check() walks the blocks slice by slice
+    goods_all.sort(key=lambda p: (-min(int(ver[p].get('cb', '0')), 14), p))
+    goods = goods_all[:6] + goods_all[6:][-6:]
     for p in goods:
         stats['check'] += 1
         r = run_cli(binp, ['check', p])
@@ -151,6 +154,26 @@ def run(tier, seed, replay):
                 if r[0] == 0:
                     finds.append(('check-misses-leak', where, 'check accepts %s although cluster %d has refcount 1 and no reference (specification checker: leaked=%s)' % (os.path.basename(lp), idx, v.get('leaked'))))
             os.remove(lp)
+    # ---------- consistent images made by the independent builder (all cluster kinds) must be accepted
+    import foreign
+    fpaths = []
+    for k in range(10 if tier == 'quick' else 120):
+        top = foreign.rand_desc(rng, with_backing=False, allow_v2=True, cbs=[9, 10, 12], nclusters=rng.choice([8, 20, 40]))
+        try:
+            ps, _ = foreign.write_images(d, 'c20f_%d' % k, [top])
+        except ValueError:
+            continue
+        fpaths.append(ps[0])
+    fver = qdrv_check(fpaths, d)
+    for p in fpaths:
+        if fver.get(p, {}).get('valid') != '1':
+            continue
+        stats['check_foreign'] += 1
+        r = run_cli(binp, ['check', p])
+        if r[0] != 0:
+            msg = [l for l in (r[1] + r[2]).split('\n') if 'leak' in l or 'check' in l.lower()]
+            finds.append(('check-rejects-good', os.path.basename(p), 'check fails on a consistent image made by the independent builder (%s): %s' % (
+                os.path.basename(p), '; '.join(msg[:2])[:200])))
     shutil.rmtree(d, ignore_errors=True)
     violations, known = [], []
     seen = set()
